@@ -427,7 +427,7 @@ pub fn gen_library(name: &str) -> Member {
 }
 
 pub fn gen_script(tape: &[u16], name: &str) -> Option<Member> {
-    let prog = catch(|| Gen::program(tape, &GenOpts { max_fns: 12, budget: 420 })).ok()?;
+    let prog = catch(|| Gen::program(tape, &GenOpts { max_fns: 12, budget: 420, ..GenOpts::default() })).ok()?;
     let src = swaygen::emit_program(&prog, &EmitOpts { mask_shifts: false, no_trap: false });
     let (fns, wide) = (count_fns(&src), count_wide(&src));
     Some(Member { name: name.into(), kind: "script", deps: vec![], fns, wide_consts: wide, storage_fields: 0, src })
